@@ -9,6 +9,7 @@
 import Cgp.Drive.Gw
 import Cgp.Drive.Tk
 import Cgp.Drive.Gs
+import Cgp.Drive.Op
 open Cgp Cgp.Tok
 
 inductive World where
@@ -16,6 +17,7 @@ inductive World where
   | gw (s : Cgp.Drive.Gw.GwS)
   | tk (s : Cgp.Drive.Tk.TkS)
   | gs (s : Cgp.Drive.Gs.GsS)
+  | op (s : Cgp.Drive.Op.OpS)
 
 structure Out where
   obs : String
@@ -27,18 +29,21 @@ def World.step (w : World) (t : List String) (implObs : String) : World × Out :
   | .gw s => let (s', o) := Cgp.Drive.Gw.step s t; (.gw s', ⟨o.obs, o.kind⟩)
   | .tk s => let (s', o) := Cgp.Drive.Tk.step s t; (.tk s', ⟨o.obs, o.kind⟩)
   | .gs s => let (s', o) := Cgp.Drive.Gs.step s t implObs; (.gs s', ⟨o.obs, o.kind⟩)
+  | .op s => let (s', o) := Cgp.Drive.Op.step s t; (.op s', ⟨o.obs, o.kind⟩)
 
 def World.known : World → List String
   | .none => []
   | .gw _ => Cgp.Drive.Gw.known
   | .tk _ => Cgp.Drive.Tk.known
   | .gs _ => Cgp.Drive.Gs.known
+  | .op _ => Cgp.Drive.Op.known
 
 def newWorld (cluster : String) : World :=
   match cluster with
   | "gw" => .gw {}
   | "tk" => .tk {}
   | "gs" => .gs {}
+  | "op" => .op {}
   | _ => .none
 
 structure RunAcc where
